@@ -1,6 +1,6 @@
 (** C01 -- N-D form equals the coordinate map defined by the ancillary matrices. *)
 From Coq Require Import List Arith Lia Bool.
-Require Import V.Base.ListAux V.Base.Radix V.Base.Matrix V.Base.NdArray V.Usid.SortOrder V.Usid.ToND V.Usid.ToNDProof V.Usid.Grid.
+Require Import V.Base.ListAux V.Base.Radix V.Base.Matrix V.Base.NdArray V.Usid.SortOrder V.Usid.ToND V.Usid.ToNDProof V.Usid.Grid V.Usid.GridRoundTrip.
 Import ListNotations.
 
 (** Headline.  For ANY number of position / spectroscopic dimensions, ANY sizes >= 1 (size-1 dimensions included),
@@ -25,6 +25,19 @@ Theorem C01_to_nd_coordinate_map :
          inbounds (pos_row pos kp r ++ spec_col spec ks c) (nd_shape a)).
 Proof. intros. apply grid_to_nd; assumption. Qed.
 Print Assumptions C01_to_nd_coordinate_map.
+
+(** Exact shape and labels: one axis per dimension, in file order, of that dimension's size. *)
+Theorem C01_exact_shape :
+  forall (A : Type) (dflt : A) (szp orderp szs orders : list nat) (main : list (list A)) (pos : list (list nat)),
+    wf_grid szp orderp -> wf_grid szs orders ->
+    length szp <= prod (radices szp orderp) -> length szs <= prod (radices szs orders) ->
+    0 < length szp -> 0 < length szs ->
+    length main = prod (radices szp orderp) -> rect main (prod (radices szs orders)) ->
+    transpose2d 0 pos = grid_spec szp orderp -> ncols pos = length szp ->
+    forall a labels, to_nd dflt main pos (grid_spec szs orders) false = Ok (a, labels) ->
+      nd_shape a = szp ++ szs /\ labels = seq 0 (length szp + length szs).
+Proof. intros. eapply grid_nd_shape; eassumption. Qed.
+Print Assumptions C01_exact_shape.
 
 (** ... and "the unique row r whose indices are (i_1..i_k)": every in-bounds coordinate vector is carried by exactly one row. *)
 Theorem C01_unique_row_for_every_coordinate :
